@@ -16,7 +16,9 @@ RULE = ("/proc/meminfo drawn as a list of kernel-formatted lines: EXHAUSTIVE ove
         "counters in any order, repeated counter lines, extra columns, value-less lines; the fallback estimate also at magnitudes "
         "2^53..2^74 bytes where its double arithmetic rounds (model with IEEE rounding, compared exactly); meminfo with the Linux 2.4 "
         "header and other non 'name number' lines; histories of virtual_memory()/Process.memory_percent() calls over changing MemTotal "
-        "(cached total); plus a malformed byte stream (dropped/blank/duplicated/non-numeric lines, signs, underscores, CRLF) "
+        "(cached total; directed histories vm / MemTotal changes / vm / memory_percent over all ordered pairs of 4 totals); EXHAUSTIVE: /proc/zoneinfo "
+        "present but open() failing with EACCES, EIO, EISDIR or read() failing with EIO x MemAvailable absent/0/value x all 8 subsets of the estimate's inputs; "
+        "plus a malformed byte stream (dropped/blank/duplicated/non-numeric lines, signs, underscores, CRLF) "
         "compared with the model only. Non-trivial = at least MemTotal and MemFree (or one swap source) present; distinct = "
         "distinct canonical case hash.")
 TRUSTED = ["correspondence harness props/C08.py + pv/ (fake /proc tree, patched cext.linux_sysinfo and _pslinux.PAGESIZE, captured warnings)",
@@ -28,7 +30,9 @@ ASSUMPTIONS = ["CPython semantics of bytes.split/strip/startswith/int and of war
                "the exact fallback formula is demanded only under Spec.float_exact (watermark multiple of 512, free+watermark+pagecache+slab < 2^61 bytes); beyond it the "
                "implementation is compared with the IEEE-rounding model only",
                "the page size is the module constant psutil._pslinux.PAGESIZE (patched per case to 4096/16384/65536)"]
-EXHAUSTIVE = {"quick": "all 512 subsets of 9 optional meminfo field groups; all 96 combinations of MemAvailable mode x {Active(file),Inactive(file),SReclaimable,zoneinfo} subsets",
+EXHAUSTIVE = {"quick": "all 512 subsets of 9 optional meminfo field groups; all 96 combinations of MemAvailable mode x {Active(file),Inactive(file),SReclaimable,zoneinfo} subsets; "
+                       "all 96 combinations zoneinfo fault {EACCES,EIO,EISDIR at open, EIO at read} x MemAvailable {absent,0,value} x subsets of {Active(file),Inactive(file),SReclaimable}; "
+                       "48 directed cached-total histories (12 ordered pairs of totals x 4 call shapes)",
               "thorough": "the same 512 + 96 enumerations, each repeated 6 times under rotating magnitude classes"}
 SHARD = 120
 # model parameter: True = the code as it is now (commit db3d5fc: meminfo lines that are not "name number" are skipped);
@@ -238,6 +242,28 @@ def _swap_case(rng, tier):
     return {"kind": "swap", "cls": cls, "ps": ps, "mem": mem, "sysinfo": sysinfo, "vmstat": vm}
 
 
+ZFAULTS = ["EACCES", "EIO", "EISDIR", "READ_EIO"]
+
+
+def _phy_mem(rng, t):
+    return [["MemTotal:", 7, str(t), " kB"], ["MemFree:", 8, str(rng.randint(0, t)), " kB"], ["MemAvailable:", 3, str(rng.randint(0, t)), " kB"],
+            ["Buffers:", 3, "0", " kB"], ["Cached:", 3, "0", " kB"], ["Shmem:", 3, "0", " kB"], ["Active:", 3, "0", " kB"], ["Inactive:", 3, "0", " kB"]]
+
+
+def _phymem_directed(rng, shape, totals):
+    """every virtual_memory() call sees the NEXT total of the list (MemTotal changes between the calls); memory_percent() sees the last one"""
+    ev, i = [], 0
+    for op in shape:
+        if op == "vm":
+            t = totals[min(i, len(totals) - 1)]
+            i += 1
+            ev.append(["vm", _phy_mem(rng, t)])
+        else:
+            t = totals[min(i, len(totals) - 1)]
+            ev.append(["mp", rng.choice([1, 125, 250]), _phy_mem(rng, t)])
+    return {"kind": "phymem", "cls": "phymem-refresh", "events": ev}
+
+
 def _phymem_case(rng):
     """history of virtual_memory() / Process.memory_percent() calls; MemTotal may change between calls (hotplug, balloon)"""
     totals = [rng.choice([0, 1, 1000, 16384256, 2 ** 40]) for _ in range(3)]
@@ -303,6 +329,26 @@ def gen_cases(rng, tier):
                     zmode = ("bigwm" if amode.endswith("bigwm") else "zones") if "zoneinfo" in present else "absent"
                     mag = rng.choice(["normal", "normal", "distorted", "tiny", "freegt", "zero"])
                     cases.append(_vm_case(rng, present, mag, amode.split("-")[0], zmode, cls="vm-availpath"))
+    if tier != "search":
+        # exhaustive: /proc/zoneinfo exists but cannot be opened (EACCES, EIO, EISDIR) or read (EIO)
+        #             x MemAvailable {absent, 0, value} x every subset of the estimate's three meminfo inputs
+        for rep in range(reps):
+            for zf in ZFAULTS:
+                for amode in ("absent", "zero", "value"):
+                    for m in range(8):
+                        present = {g for i, g in enumerate(AVGROUP[:3]) if m >> i & 1}
+                        present |= {g for g in GROUPS[:2] + GROUPS[3:] if rng.random() < 0.8}
+                        c = _vm_case(rng, present, rng.choice(["normal", "normal", "tiny", "distorted", "zero"]), amode, "absent",
+                                     cls="vm-zoneinfo-" + zf)
+                        c["zfault"] = zf
+                        cases.append(c)
+        # directed: virtual_memory() again after MemTotal changed, then memory_percent()
+        tl = [1000, 4000, 16384256, 1]
+        for t1 in tl:
+            for t2 in tl:
+                if t1 != t2:
+                    for shape in (["vm", "vm", "mp"], ["mp", "vm", "mp"], ["vm", "mp", "vm", "mp"], ["vm", "vm", "vm", "mp"]):
+                        cases.append(_phymem_directed(rng, shape, [t1, t2]))
     for _ in range(n_rand):
         present = {g for g in GROUPS + AVGROUP[:2] if rng.random() < rng.choice([0.5, 0.9, 0.97])}
         cases.append(_vm_case(rng, present, rng.choice(MAGS), rng.choice(amodes), rng.choice(zmodes),
@@ -398,6 +444,9 @@ def _optb(hexs):
 def coq_term(case):
     k = case["kind"]
     L = G.bo(LENIENT)
+    if k == "vm" and case.get("zfault"):
+        z = {"EACCES": "(ZOpenErr EACCES)", "EIO": "(ZOpenErr EIO)", "EISDIR": "(ZOpenErr EISDIR)", "READ_EIO": "(ZReadErr [])"}[case["zfault"]]
+        return "run_vm_z %s %s %s %s" % (L, G.z(case["ps"]), _mem_term(case["mem"]), z)
     if k == "vm":
         return "run_vm %s %s %s %s" % (L, G.z(case["ps"]), _mem_term(case["mem"]), _zone_term(case["zone"]))
     if k == "swap":
@@ -559,6 +608,8 @@ def impl_setup(env):
 
 
 def _write(path, data):
+    if os.path.isdir(path):
+        os.rmdir(path)
     if data is None:
         if os.path.exists(path):
             os.unlink(path)
@@ -629,6 +680,47 @@ def impl_run(case, coq, env):
     _write(os.path.join(root, "zoneinfo"), aux if vm else None)
     _write(os.path.join(root, "vmstat"), None if vm else aux)
     old_path, old_ps, old_si = psutil.PROCFS_PATH, _pslinux.PAGESIZE, _pslinux.cext.linux_sysinfo
+    old_open = _pslinux.open_binary
+    zf = case.get("zfault")
+    if zf:
+        import errno
+        zpath = os.path.join(root, "zoneinfo")
+        if zf == "EISDIR":
+            os.mkdir(zpath)           # a real directory: open() raises IsADirectoryError by itself
+        else:
+            with open(zpath, "wb") as f:      # the file exists
+                f.write(b"Node 0, zone   Normal\n        low      5\n")
+
+            class _Broken:
+                def __enter__(self):
+                    return self
+
+                def __exit__(self, *a):
+                    return False
+
+                def __iter__(self):
+                    return self
+
+                def __next__(self):
+                    raise OSError(errno.EIO, "Input/output error")
+
+                def read(self, *a):
+                    raise OSError(errno.EIO, "Input/output error")
+
+                readline = read
+
+                def close(self):
+                    pass
+
+            def fake_open_binary(fname, *a, **kw):
+                if fname == zpath:
+                    if zf == "EACCES":
+                        raise PermissionError(errno.EACCES, "Permission denied", fname)
+                    if zf == "EIO":
+                        raise OSError(errno.EIO, "Input/output error", fname)
+                    return _Broken()
+                return old_open(fname, *a, **kw)
+            _pslinux.open_binary = fake_open_binary
     psutil.PROCFS_PATH = root
     _pslinux.PAGESIZE = case.get("ps", 4096)
     si = case.get("sysinfo")
@@ -687,6 +779,7 @@ def impl_run(case, coq, env):
         return [main, side]
     finally:
         psutil.PROCFS_PATH, _pslinux.PAGESIZE, _pslinux.cext.linux_sysinfo = old_path, old_ps, old_si
+        _pslinux.open_binary = old_open
 
 
 MANIFEST = {
@@ -697,13 +790,14 @@ MANIFEST = {
             "watermark estimate / free+cached, forced to 0 below 0 and to free above total, percent = round-half-even to a tenth of (total-available)/total*100 (nearest/"
             "ties-even characterised and unique), warning names = exactly the metrics set to 0 (slab excepted); never an exception. The estimate's int/float evaluation is "
             "modelled with Python's typing and IEEE rounding (rnd53) and proved equal to the exact formula for every rounding operator that is exact on representable "
-            "numbers, under the stated bound (watermark multiple of 512, sum < 2^61 bytes; witness beyond it). Any zoneinfo content is irrelevant when it is not consulted; "
+            "numbers, under the stated bound (watermark multiple of 512, sum < 2^61 bytes; witness beyond it). Any zoneinfo state is irrelevant when it is not consulted; a zoneinfo that exists but cannot be opened (EACCES, EIO, EISDIR, any errno) is answered like a "
+            "missing one: estimate = free+cached, never an exception (a read error after a successful open escapes as OSError: observation); "
             "arbitrary bytes give a record or IndexError/ValueError. 0<=available<=total and 0<=percent<=100 whenever free<=total (hypothesis necessary). "
             "meminfo may contain lines that are not 'name number' (the Linux 2.4 header): skipped (the parser used before commit db3d5fc raised on every such file: "
             "refuted theorems, fixed finding). swap_memory(), every page size and every vmstat (repeated counters read as a log, extra columns, "
             "value-less lines): total/free from meminfo or sysinfo(2), used, percent (half-even), sin/sout = pages x page size, zeros + warning when vmstat or a counter is "
             "absent (literal-4096 conversion of before fe3ce75 refuted). _TOTAL_PHYMEM: virtual_memory() stores its total, Process.memory_percent() = value*100/cached total, "
-            "re-reads only when nothing/0 is cached, ValueError for a non-positive total; history theorem. The model is tied to the code by running the real psutil (public "
+            "re-reads only when nothing/0 is cached, ValueError for a non-positive total; every virtual_memory() call refreshes the cached total (refresh and history theorems). The model is tied to the code by running the real psutil (public "
             "API, fake /proc, patched sysinfo/PAGESIZE, captured warnings) on printed records (exhaustive over 512 field subsets and 96 availability paths, float path "
             "above 2^53 compared exactly, percent compared exactly outside 1e-9 of a tie) and on a malformed stream.",
     "note": "Trusted: Coq kernel + vm_compute; hand-written model coq/C08/Model.v (tied by the correspondence run only); kernel formats, the 2.4 header and the fallback "
